@@ -72,3 +72,90 @@ Example rule_discriminates :
   circuit_uses_okb (mkU "DetailedPlacer::place" UCallNC "setCellX" 20 :: ex_good) = false /\
   circuit_uses_okb (mkU "DensityLegalizer::run" UOther "cellX_" 20 :: ex_good) = false.
 Proof. vm_compute. repeat split. Qed.
+
+(* ================================================================================================ C10 *)
+Lemma lookup_guarded_In : forall n g, NoDup (map fst modelled_setters) -> In (n, g) modelled_setters -> lookup_guarded n = Some g.
+Proof.
+  intros n g _ H. unfold modelled_setters in H. cbn [In] in H.
+  repeat (destruct H as [H | H]; [inversion H; subst; reflexivity|]). contradiction.
+Qed.
+
+Lemma lookup_guarded_Some : forall n g, lookup_guarded n = Some g -> In (n, g) modelled_setters.
+Proof.
+  intros n g H. unfold lookup_guarded in H.
+  destruct (filter (fun p => String.eqb (fst p) n) modelled_setters) as [|p l] eqn:E; [discriminate|].
+  inversion H; subst. assert (Hin : In p (p :: l)) by (left; reflexivity). rewrite <- E in Hin.
+  apply filter_In in Hin. destruct Hin as [Hin He]. apply String.eqb_eq in He. subst. destruct p; exact Hin.
+Qed.
+
+Lemma lookup_guarded_None : forall n, lookup_guarded n = None -> ~ In n (map fst modelled_setters).
+Proof.
+  intros n H Hin. apply in_map_iff in Hin. destruct Hin as [[a b] [Ha Hin]]. cbn [fst] in Ha. subst a.
+  unfold lookup_guarded in H.
+  destruct (filter (fun p => String.eqb (fst p) n) modelled_setters) as [|p l] eqn:E; [|discriminate].
+  assert (Hf : In (n, b) (filter (fun p => String.eqb (fst p) n) modelled_setters)).
+  { apply filter_In. split; [exact Hin | cbn [fst]; apply String.eqb_refl]. }
+  rewrite E in Hf. contradiction.
+Qed.
+
+Lemma guarded_first_spec : forall m,
+  negb (Nat.eqb (m_guard m) 0) && forallb (fun w => Nat.ltb (m_guard m) (snd w)) (m_writes m) = true ->
+  m_guard m <> O /\ forall w, In w (m_writes m) -> (m_guard m < snd w)%nat.
+Proof.
+  intros m H. apply andb_true_iff in H. destruct H as [H1 H2]. split.
+  - intro E. rewrite E in H1. discriminate H1.
+  - intros w Hw. rewrite forallb_forall in H2. apply Nat.ltb_lt. apply H2. exact Hw.
+Qed.
+
+Theorem circuit_methods_okb_sound : forall ms, circuit_methods_okb ms = true -> methods_ok ms.
+Proof.
+  intros ms H. unfold circuit_methods_okb in H. apply andb_true_iff in H. destruct H as [HM HE]. split.
+  - intros m Hm Hc. rewrite forallb_forall in HM. specialize (HM m Hm). unfold method_okb in HM. rewrite Hc in HM.
+    cbv zeta in HM. apply andb_true_iff in HM. destruct HM as [H1 H23]. split; [|split].
+    + intros [w [Hw Hs]]. apply orb_true_iff in H1. destruct H1 as [H1 | H1].
+      * exfalso. apply negb_true_iff in H1.
+        assert (Ht : existsb (fun w => mem (fst w) structural_fields) (m_writes m) = true).
+        { apply existsb_exists. exists w. split; [exact Hw | apply mem_In; exact Hs]. }
+        rewrite Ht in H1. discriminate H1.
+      * apply guarded_first_spec. exact H1.
+    + intros g Hg Hnd. rewrite (lookup_guarded_In _ _ Hnd Hg) in H23.
+      apply andb_true_iff in H23. destruct H23 as [He _]. apply Bool.eqb_prop in He. subst g. split.
+      * intros Hn E. rewrite E in Hn. discriminate Hn.
+      * intros Hn. destruct (Nat.eqb (m_guard m) 0) eqn:E; [apply Nat.eqb_eq in E; contradiction | reflexivity].
+    + intros [w Hw]. destruct (lookup_guarded (m_name m)) as [g|] eqn:El.
+      * left. apply lookup_guarded_Some in El. apply in_map_iff. exists (m_name m, g). split; [reflexivity | exact El].
+      * right. apply andb_true_iff in H23. destruct H23 as [_ H3].
+        destruct (mem (m_name m) entry_methods) eqn:Ee; [left; apply mem_In; exact Ee|].
+        destruct (mem (m_name m) expansion_methods) eqn:Ex; [right; apply mem_In; exact Ex|].
+        destruct (m_writes m); [contradiction | discriminate H3].
+  - intros p Hp. rewrite forallb_forall in HE. specialize (HE p Hp). apply existsb_exists in HE.
+    destruct HE as [m [Hm Hb]]. apply andb_true_iff in Hb. destruct Hb as [Hb Hc]. apply andb_true_iff in Hb.
+    destruct Hb as [Hn Hpub]. exists m. split; [exact Hm|]. split; [apply String.eqb_eq; exact Hn|].
+    split; [exact Hpub | apply negb_true_iff; exact Hc].
+Qed.
+
+Lemma modelled_setters_nodup : NoDup (map fst modelled_setters).
+Proof.
+  unfold modelled_setters. cbn [map fst].
+  repeat (constructor; [cbn [In]; intro H; repeat (destruct H as [H | H]; [discriminate H|]); exact H|]).
+  constructor.
+Qed.
+
+(* the rule is not vacuous *)
+Definition ex_methods : list cmethod :=
+  map (fun p : string * bool => mkM (fst p) true false (if snd p then 10%nat else 0%nat) [(("f_" ++ fst p)%string, 20%nat)] []) modelled_setters.
+Example methods_rule_discriminates :
+  circuit_methods_okb ex_methods = true /\
+  (* a guarded setter that lost its guard *)
+  circuit_methods_okb (mkM "setRows" true false 0 [("rows_", 20)] [] :: ex_methods) = false /\
+  (* a guard that comes after the first write *)
+  circuit_methods_okb (mkM "setRows" true false 30 [("rows_", 20)] [] :: ex_methods) = false /\
+  (* a new, unknown member function that changes the rows, even guarded *)
+  circuit_methods_okb (mkM "clearRows" true false 10 [("rows_", 20)] [] :: ex_methods) = false /\
+  (* an unguarded setter of the model that starts changing the structure *)
+  circuit_methods_okb (mkM "setCellX" true false 0 [("cellX_", 20); ("cellIsFixed_", 21)] [] :: ex_methods) = false /\
+  (* an entry point writing something else than the in-use flag *)
+  circuit_methods_okb (mkM "legalize" true false 0 [("cellX_", 20)] [] :: ex_methods) = false /\
+  (* a const member function is not constrained (const-correctness is trusted) *)
+  circuit_methods_okb (mkM "hpwl" true true 0 [] [] :: ex_methods) = true.
+Proof. vm_compute. repeat split. Qed.
